@@ -20,7 +20,8 @@ EXPLANATION = (
     "against the sanctioned owners; current-snapshot repointing must follow snapshot_log recency, never max(id)."
     " Also: (R5) timestamp lookup resolves ties by commit order; (R6-R8) the collector's reachability / no-skip / delete-guard rules (collections must leave every retained snapshot readable)."
     ' (R9) nothing may raise after the commit point (shared with C04.R2): a raise there runs the deleting rollback over the files of a snapshot that IS committed.'
-    ' (R10) every producer of a snapshot_log value keeps commit order on the sequence spine (no sorted / reversed / set / insert).')
+    ' (R10) every producer of a snapshot_log value keeps commit order on the sequence spine (no sorted / reversed / set / insert).'
+    ' (R14) recovery orders versions as integers (C10.R11). R5: the as-of sort key is the timestamp alone.')
 NOT_DECIDED = ("content equality of re-read snapshots over histories; timestamp lookup under non-monotonic "
                "clocks (depends on run-time values)")
 
@@ -51,6 +52,9 @@ def check(ctx: Ctx) -> None:
     # over the files of a snapshot that IS committed
     from .c04 import r2 as c04_r2
     ctx.shared(c04_r2, "C04.R2", "C09.R9", "a committed snapshot's files are never rolled back")
+    # retained snapshots stay resolvable after a lost pointer: recovery picks the numerically latest version
+    from .c10 import r11 as c10_r11
+    c10_r11(ctx, "C09.R14")
 
 
 # ------------------------------------------------------------------ freshness
@@ -479,6 +483,13 @@ def r5(ctx: Ctx) -> None:
                 it = norm_text(loop.iter)  # type: ignore[attr-defined]
                 if "sorted(" in it and "timestamp" in it and "reverse=True" not in it:
                     good = True  # stable ascending sort, last `<=` match overwrites earlier ones
+                    # the sort key is the timestamp ALONE: any further component (the random snapshot id, a name) reorders
+                    # snapshots that share a millisecond, and the last match is no longer the last committed
+                    for sc in [x for x in ast.walk(loop.iter) if isinstance(x, ast.Call) and (dotted(x.func) or "") == "sorted"]:  # type: ignore[attr-defined]
+                        key = kwarg(sc, "key")
+                        body = key.body if isinstance(key, ast.Lambda) else None
+                        if isinstance(body, (ast.Tuple, ast.List)) and len(body.elts) > 1:
+                            problems.append(f"sort key `{norm_text(body)[:50]}` breaks ties by something other than commit order")
                 elif "reversed(" in it or "reverse=True" in it:
                     problems.append("descending iteration with overwrite keeps the EARLIEST of equal timestamps")
     ok = good and not problems
